@@ -18,7 +18,23 @@ LOOKUP = f"{SL}:Lookup"
 ENC = f"{SL}:LookupEncoder"
 DEC = f"{PL}:LookupDecoder"
 
-shape(LOOKUP, fields=dict(data=OD, max_size=INT, _evicting=BOOL), ghost=dict(key_at=ARR(INT, STR)))
+def _rebuild_key_at(L: Any) -> None:
+    """replay only: key_at is determined by the real map whenever the map is injective (it is its inverse)."""
+    d = L.data
+    ka = L.key_at if L.has_field("key_at") else z3.K(z3.IntSort(), z3.StringVal(""))
+    # concrete maps are Store chains; walk them
+    m = d.val
+    pairs = []
+    while z3.is_app(m) and m.decl().kind() == z3.Z3_OP_STORE:
+        pairs.append((m.arg(1), m.arg(2)))
+        m = m.arg(0)
+    for k, v in reversed(pairs):
+        ka = z3.Store(ka, v, k)
+    L.key_at = ka
+
+
+shape(LOOKUP, fields=dict(data=OD, max_size=INT, _evicting=BOOL), ghost=dict(key_at=ARR(INT, STR)),
+      rebuild=_rebuild_key_at)
 shape(ENC, fields=dict(lookup=OBJ(LOOKUP), last_assigned_index=INT, last_reused_index=INT),
       ghost=dict(T=REC("SpecTable")))
 shape(DEC, fields=dict(lookup_size=INT, data=DEQUE, last_assigned_index=INT, last_reused_index=INT),
@@ -155,7 +171,9 @@ class _Enc_entry:
     params = {"self": OBJ(ENC), "key": STR}
     result = OPT(INT)
     modifies = ["self.lookup.data", "self.lookup._evicting", "self.lookup.key_at", "self.last_assigned_index", "self.T"]
-    tags = {"none-iff-resident": ["C19"], "zero-iff-sequential": ["C19", "C05", "C03"]}
+    # the two `iff` clauses are the compression contract (C19); what C05/C03/C01 need from them (no id that a
+    # conformant reader would resolve differently) is carried by id-valid-for-spec + coupled
+    tags = {"none-iff-resident": ["C19"], "zero-iff-sequential": ["C19"]}
 
     def requires(e): return _enc_pre(e)
 
@@ -212,7 +230,7 @@ class _Enc_name:
     params = {"self": OBJ(ENC), "value": STR}
     result = INT
     modifies = ["self.lookup.data", "self.last_reused_index", "self.T"]
-    tags = {"zero-iff-next": ["C19", "C05", "C03"]}
+    tags = {"zero-iff-next": ["C19"]}
 
     def requires(e): return And(_enc_pre(e), od_has(e.self.lookup.data, e.value))
 
@@ -238,7 +256,7 @@ class _Enc_prefix:
     params = {"self": OBJ(ENC), "value": STR}
     result = INT
     modifies = ["self.lookup.data", "self.last_reused_index", "self.T"]
-    tags = {"zero-iff-same-or-empty": ["C19", "C05", "C03"]}
+    tags = {"zero-iff-same-or-empty": ["C19"]}
 
     def requires(e):
         E = e.self
